@@ -6,7 +6,8 @@ import Glom.Model.C01
 
   case:  {"classes":[[cls,{"mro":[…],"dict":b,"iter":b}]…], "heap":[Obj…], "target":Val,
           "spelling": {"text":"a.*.b"} | {"parts":[{"seg":Val} | {"t":[[op,Val]…]}…]},
-          "mut": null | {"kind":"assign","val":Val} | {"kind":"delete"},
+          "mut": null | {"kind":"assign","val":Val,"missing":null|"dict"|"list"} | {"kind":"delete","ignore":b}
+                 (the final step of the spelling — seg / T[..] / T.attr — gives the op of the mutation),
           "impl": {"ok":Res} | "pae" | {"other":cls} | {"mutated":[Obj…],"err":cls|null} | "timeout"}
   Res:   {"v":Val} | {"l":[Res…]}
 -/
@@ -79,8 +80,13 @@ def run (j : Json) : Except String Json := do
     | .null => pure none
     | m => do
       let k ← m.getObjValAs? String "kind"
-      if k == "assign" then return some (.assign (← valOfJson (← m.getObjVal? "val")))
-      else return some .delete : Except String (Option MutKind))
+      -- the final op is filled in below from the spelling of the last step
+      if k == "assign" then
+        let missing := match m.getObjVal? "missing" with | .ok (.str _) => true | _ => false
+        return some (.assign "P" (← valOfJson (← m.getObjVal? "val")) missing)
+      else
+        let ignore := (m.getObjValAs? Bool "ignore").toOption.getD false
+        return some (.delete "P" ignore) : Except String (Option MutKind))
   if (← j.getObjVal? "impl") == Json.str "skip" then
     return Json.mkObj [("skip", true), ("why", "two heap cells decoded to one interned object")]
   let implObs ← obsOfJson (← j.getObjVal? "impl")
@@ -97,16 +103,25 @@ def run (j : Json) : Except String Json := do
         | some o => checkC14 cs heap allSteps none target o
         | none => false
       pure (m, hd, "read")
-    | some kind =>
+    | some kind0 =>
       match allSteps.reverse with
-      | ("P", key) :: revInit =>
+      | (op, key) :: revInit =>
+        if !(op == "P" || op == "[" || op == ".") then throw "mutation path must end in a plain / item / attribute step" else
+        let kind : MutKind := match kind0 with
+          | .assign _ v m => .assign op v m
+          | .delete _ ig => .delete op ig
         let steps := revInit.reverse
         let m := modelMutate cs heap steps key kind target
         let hd := match implObs with
           | some o => checkC14 cs heap steps (some (key, kind)) target o
           | none => false
-        pure (m, hd, match kind with | .assign _ => "assign" | .delete => "delete")
+        pure (m, hd, match kind with
+          | .assign o _ ms => s!"assign{o}" ++ (if ms then "+missing" else "")
+          | .delete o ig => s!"delete{o}" ++ (if ig then "+ignore" else ""))
       | _ => throw "mutation path must end in a plain segment" : Except String (Obs × Bool × String))
+  -- `missing=` is consulted only when the path fails before its first wildcard: C11's subject
+  if (match mutK, modelObs with | some (.assign _ _ true), .pae => true | _, _ => false) then
+    return Json.mkObj [("skip", true), ("why", "Assign(missing=) whose path fails before the first wildcard (C11)")]
   let agree := match implObs with
     | some o => obsEq modelObs o
     | none => false
